@@ -715,7 +715,7 @@ fn parse_json_filter(input: &[u8], output: &mut [u8]) -> Result<(usize, usize), 
         eat_whitespace_and_commas(input, &mut inpos);
 
         // Check for end
-        if input[inpos] == b'}' {
+        if peek(input, inpos)? == b'}' {
             inpos += 1;
             break;
         }
@@ -861,7 +861,7 @@ fn parse_json_filter(input: &[u8], output: &mut [u8]) -> Result<(usize, usize), 
         // `inpos` is right after the open bracket of the array
         loop {
             eat_whitespace_and_commas(input, &mut inpos);
-            if input[inpos] == b']' {
+            if peek(input, inpos)? == b']' {
                 break;
             }
             read_id(input, &mut inpos, &mut output[end..])?;
@@ -879,7 +879,7 @@ fn parse_json_filter(input: &[u8], output: &mut [u8]) -> Result<(usize, usize), 
         // `inpos` is right after the open bracket of the array
         loop {
             eat_whitespace_and_commas(input, &mut inpos);
-            if input[inpos] == b']' {
+            if peek(input, inpos)? == b']' {
                 break;
             }
             read_pubkey(input, &mut inpos, &mut output[end..])?;
@@ -901,7 +901,7 @@ fn parse_json_filter(input: &[u8], output: &mut [u8]) -> Result<(usize, usize), 
         // `inpos` is right after the open bracket of the array
         loop {
             eat_whitespace_and_commas(input, &mut inpos);
-            if input[inpos] == b']' {
+            if peek(input, inpos)? == b']' {
                 break;
             }
             let u = read_u64(input, &mut inpos)?;
@@ -964,7 +964,7 @@ fn parse_json_filter(input: &[u8], output: &mut [u8]) -> Result<(usize, usize), 
             let mut count: u16 = 1; // the tag letter itself counts
             loop {
                 eat_whitespace_and_commas(input, &mut inpos);
-                if input[inpos] == b']' {
+                if peek(input, inpos)? == b']' {
                     break;
                 }
                 verify_char(input, b'"', &mut inpos)?;
@@ -973,7 +973,8 @@ fn parse_json_filter(input: &[u8], output: &mut [u8]) -> Result<(usize, usize), 
                 // write len
                 put(output, end, (outlen as u16).to_ne_bytes().as_slice())?;
                 end += 2 + outlen;
-                inpos += inlen + 1;
+                inpos += inlen;
+                verify_char(input, b'"', &mut inpos)?;
                 count += 1;
             }
 
